@@ -35,6 +35,7 @@ THEOREMS = [
     "TornadoModel.C40.waker_always_captured",
     "TornadoModel.C40.stale_select_returns",
     "TornadoModel.C40.callbacks_on_loop_thread",
+    "TornadoModel.C40.raise_still_posts",
     "TornadoModel.C40.close_progress",
     "TornadoModel.C40.close_rank_decreases",
     "TornadoModel.C40.join_returns",
@@ -48,7 +49,7 @@ TRUSTED = [
 ASSUMPTIONS = [
     "close() is called between callbacks (not from inside a reader/writer callback) and registrations are not changed after close",
     "select errors (EBADF path) and interpreter shutdown (_atexit_callback) are not exercised in the simulated tier",
-    "user fds are never the waker; callbacks do not raise",
+    "user fds are never the waker; a raising callback is handed to the loop's exception handler (the loop goes on)",
 ]
 RULE = ("scripts of loop-thread actions (add/remove reader/writer, make fd ready/unready, run a queued callback, callbacks that "
         "consume / unregister / register, close) x seeded schedules over the yield points of both threads; "
@@ -81,6 +82,10 @@ class Infra(Exception):
 
 class Deadlock(Exception):
     pass
+
+
+class Boom(Exception):
+    """raised by a scripted user callback"""
 
 
 # --------------------------------------------------------------------------- deterministic scheduler
@@ -438,6 +443,9 @@ def _run_sim(case):
         elif k == "unready":
             (W.readyW if act[1] == "W" else W.readyR).discard(act[2])
             W.rec("unready", act[1], act[2])
+        elif k == "raise":
+            W.rec("raised")
+            raise Boom()
         elif k == "yield":
             sched.yield_point("script")
         elif k in ("run", "wait_run"):
@@ -458,7 +466,10 @@ def _run_sim(case):
         cb, args, kind = W.queue.pop(0)
         if kind == "report":
             W.rec("handleBegin", *W.sets(*args))
-        cb(*args)
+        try:
+            cb(*args)
+        except Boom:
+            pass          # asyncio hands it to the loop's exception handler; the loop goes on
         return True
 
     closed = [False]
@@ -646,8 +657,10 @@ def _behaviour(rng, kind, fd):
     if k < 0.8:
         other = rng.choice(FDS)
         return [["unready", kind, fd], ["add_reader", other, [["unready", "R", other]]], ["ready", "R", other]]
-    if k < 0.9:
+    if k < 0.86:
         return []                                             # level-triggered: stays ready, fires every round
+    if k < 0.93:
+        return [["unready", kind, fd], ["raise"]]             # the callback fails after consuming
     return [["unready", kind, fd], ["remove_reader" if kind == "R" else "remove_writer", fd],
             ["add_reader" if kind == "R" else "add_writer", fd, [["unready", kind, fd]]]]
 
@@ -700,6 +713,9 @@ def _focused_cases(rng):
         [["add_reader", 3, [["unready", "R", 3]]], ["ready", "R", 3], ["close"]],
         [["wait_run"], ["wait_run"], ["add_reader", 5, [["unready", "R", 5]]], ["yield"], ["ready", "R", 5]],
         [["add_reader", 3, [["unready", "R", 3], ["add_reader", 4, [["unready", "R", 4]]], ["ready", "R", 4]]], ["ready", "R", 3]],
+        [["add_reader", 3, [["unready", "R", 3], ["raise"]]], ["ready", "R", 3], ["wait_run"], ["wait_run"], ["ready", "R", 3]],
+        [["add_reader", 3, [["raise"]]], ["add_reader", 4, [["unready", "R", 4]]], ["ready", "R", 3], ["ready", "R", 4],
+         ["wait_run"], ["wait_run"], ["remove_reader", 3]],
     ]
     for sc in base:
         for _ in range(12):
@@ -728,7 +744,7 @@ def _real_case(rng):
 def gen_cases(rng, tier):
     if tier == "quick":
         yield from _focused_cases(rng)
-        for _ in range(400):
+        for _ in range(1000):
             yield _sim_case(rng)
     elif tier == "thorough":
         for _ in range(6):
@@ -881,7 +897,10 @@ def stats(case, impl):
 
 def signature(case, impl, why):
     m = re.match(r"([\w/]+):", why)
-    return "%s/%s" % (case["kind"], m.group(1) if m else "other")
+    sig = "%s/%s" % (case["kind"], m.group(1) if m else "other")
+    if case["kind"] == "sim" and any(e[0] == "raised" for e in impl.get("trace", [])):
+        sig += "/after-callback-raised"
+    return sig
 
 
 def shrink(case):
